@@ -30,8 +30,10 @@ ASSUMPTIONS = [
 ]
 
 TIERS = {
-    # tier: (wall budget for exploration in s, max runs, per-run wall limit, determinism pairs)
-    'quick': (70.0, 6000, 90.0, 48),
+    # tier: (wall limit for exploration in s, max runs, per-run wall limit, determinism pairs)
+    # quick is bounded by a NUMBER of runs (about 55 s on 16 idle cores), so that what it explores does not shrink when the
+    # machine is busy; the wall limit only stops it from taking more than a few minutes
+    'quick': (200.0, 1200, 90.0, 48),
     'thorough': (1100.0, 200000, 180.0, 400),
 }
 
